@@ -191,8 +191,13 @@ func (txn *Txn) Union(columns ...string) *Txn {
 					dst.Or(src)
 				}
 			})
+			first = false
 		}
-		first = false
+	}
+
+	// A union that starts a query selects nothing if none of its indexes exists
+	if first && len(columns) > 0 {
+		txn.index.Clear()
 	}
 	return txn
 }
